@@ -100,6 +100,9 @@ theorem Sim.nstf {m : Mat} {l : List Step} {fin : View} (hk : HOk m) (hr : m.h =
   · intro hi; simp [handle, hr, Mat.reset] at hi
   · simpa [handle, hr, Mat.reset] using h
 
+theorem HOk.reset (m : Mat) : HOk m.reset :=
+  ⟨by simp [Mat.reset], fun _ => rfl, by intro h; simp [Mat.reset] at h, fun _ _ => rfl⟩
+
 /-! ### the unfiltered subscriber -/
 
 theorem entryOk_all (t : Topic) (id : Id) (v : Val) : Authz.all.entryOk t id v = true := by
@@ -112,12 +115,12 @@ theorem fview_all (t : Topic) (v : View) : fview .all t v = v := by
 theorem visible_all (t : Topic) (st : Step) : visible .all t st = some st := by
   cases st with
   | nstf => rfl
-  | eos i post => simp [visible, fview_all]
+  | eos i post => rfl
   | item it =>
     have : it.evs.filter Authz.all.allowed = it.evs := by
       apply List.filter_eq_self.mpr
       intro e _
       exact entryOk_all _ _ _
-    simp [visible, this, fview_all]
+    simp [visible, this]
 
 end CV.Stream
